@@ -48,8 +48,8 @@ def examples(tier):
 @st.composite
 def member(draw, name):
     isdir = name.endswith("/")
-    tchar = "d" if isdir else draw(st.sampled_from(["-", "-", "-", "-", "l", "p", "0"]))
-    ifmt = {"-": stat.S_IFREG, "d": stat.S_IFDIR, "l": stat.S_IFLNK, "p": stat.S_IFIFO, "0": 0}[tchar]
+    tchar = "d" if isdir else draw(st.sampled_from(["-", "-", "-", "-", "l", "p", "0", "s", "l"]))
+    ifmt = {"-": stat.S_IFREG, "d": stat.S_IFDIR, "l": stat.S_IFLNK, "p": stat.S_IFIFO, "0": 0, "s": stat.S_IFSOCK}[tchar]
     perm = draw(st.sampled_from([0o644, 0o755, 0o600, 0o4755, 0o000, 0o777, 0o2750]))
     m = {"n": name, "mode": ifmt | perm,
          "dt": [draw(st.sampled_from([1980, 1999, 2020, 2024, 2037])), draw(st.sampled_from([1, 2, 4, 11, 12])),
@@ -92,7 +92,7 @@ def strategy_(draw, tier):
         members = [draw(member(n)) for n in names]
         trees.subtree(spec, d)["%d%s" % (i, nm)] = {"t": "z", "members": members}
     q = draw(st.sampled_from(["plain", "plain", "where-size", "where-name", "where-isdir", "order-limit", "aggregate",
-                              "where-hidden", "where-dates", "where-dates-ne"]))
+                              "where-hidden", "where-dates", "where-dates-ne", "where-isfile"]))
     case = {"kind": "search", "tree": spec, "q": q, "mode": draw(st.sampled_from(["", "bfs", "dfs"])),
             "clock": draw(st.sampled_from(CLOCKS)),
             "window": draw(st.sampled_from([None, None, None, [0, 1], [1, 2], [2, 0], [2, 2]])),
@@ -190,6 +190,10 @@ def where_text(case):
         return "name like '%.txt'", lambda r: glob.like_match("%.txt", r[1])
     if q == "where-isdir":
         return "is_dir = true", lambda r: r[3] == "true"
+    if q == "where-isfile":
+        # a member is a file when its stored type says so (a link, a pipe or a socket is none), or, without a stored
+        # type, when it is no directory
+        return "is_file = true", lambda r: r[3] != "true" and (r[4] == "" or r[4].startswith("-"))
     if q == "where-hidden":
         # hidden as for an ordinary entry: the name of the member itself (its last component) begins with a dot
         return "is_hidden = true", lambda r: r[1].split("] ", 1)[1].rstrip("/").rsplit("/", 1)[-1].startswith(".")
